@@ -56,6 +56,29 @@ def _gave_up(src, line, col):
     return hits[0] if hits else ('stmt-recursion' if guard else None)
 
 
+def _operand_limit(src, line, col):
+    """re-runs one inference watching syntax_tree._infer_comparison: True when some binary operation
+    met more than six (left, right) value pairs - there jedi answers with the union of both operand
+    sets instead of executing the magic method (no debug message is emitted on that path)"""
+    import jedi
+    from jedi.inference import syntax_tree as st
+    hit = []
+    orig = st._infer_comparison
+
+    def watch(context, left_values, operator, right_values):
+        if left_values and right_values and len(left_values) * len(right_values) > 6:
+            hit.append(1)
+        return orig(context, left_values, operator, right_values)
+    st._infer_comparison = watch
+    try:
+        jedi.Script(src).infer(line, col)
+    except Exception:
+        pass
+    finally:
+        st._infer_comparison = orig
+    return bool(hit)
+
+
 def analyse_source(src, info=None):
     """runs one program and infers at every probe the run reached"""
     from gen import flowprog as F
@@ -68,13 +91,15 @@ def analyse_source(src, info=None):
         if not rt:
             continue
         rec = {'line': line, 'column': col, 'runtime': rt, 'jedi': None, 'raised': None,
-               'exact': exact.get(str(line)), 'gave_up': None}
+               'exact': exact.get(str(line)), 'gave_up': None, 'operand_limit': False}
         try:
             rec['jedi'] = _infer(src, line, col)
         except Exception as e:
             rec['raised'] = '%s@%s' % common.exc_site(e)
         if rec['jedi'] is not None and verdict(rec) is not None:
             rec['gave_up'] = _gave_up(src, line, col)
+            if verdict(rec)[2] == 'not-exact' and not rec['gave_up']:
+                rec['operand_limit'] = _operand_limit(src, line, col)
         recs.append(rec)
     return {'src': src, 'err': err, 'probes': recs, 'selfnest': bool(info.get('selfnest')),
             'finding_shape': info.get('finding_shape')}
@@ -151,12 +176,19 @@ def analyse_flow(seed):
     also shrunk)"""
     import random
     from gen import flowprog as F
+    from gen import descbind as D
     rng = random.Random(seed)
     out = []
     for _ in range(1):
-        src, info, feats = F.gen_program(rng)
+        if '-desc-' in seed:
+            # class families: descriptor binding through inheritance (gen/descbind.py)
+            src, info, feats = D.gen_program(rng)
+            feats = ['desc:' + f for f in feats]
+        else:
+            src, info, feats = F.gen_program(rng)
         res = analyse_source(src, info)
         res['features'] = feats
+        res['origin'] = 'generated:descbind' if '-desc-' in seed else 'generated'
         out.append(res)
         if _SHRUNK[0] < 1 and not info.get('selfnest') and _failing(res, 'missing') is not None:
             _SHRUNK[0] += 1
@@ -165,12 +197,111 @@ def analyse_flow(seed):
                 res2 = analyse_source(small)
                 res2['features'] = []
                 res2['shrunk_from'] = src
+                res2['origin'] = res['origin']
                 out.append(res2)
     return out
 
 
 def analyse_corpus(item):
     return analyse_source(item['source'], item)
+
+
+# ------------------------------------------------- stream `lookup` (Model/ClassLookup, three-way)
+
+LOOKUP_NAMES = 3
+
+
+def lookup_source(hier):
+    """the program of one hierarchy: class i is `K<i>`, classmethod j is `m<j>` and returns `cls`;
+    one probe per (class, name) that resolves.  Returns (source, [(class, name, probe line)])"""
+    lines = []
+    for i, (base, names) in enumerate(hier):
+        lines.append('class K%d%s:' % (i, '' if base is None else '(K%d)' % base))
+        if not names:
+            lines.append('    pass')
+        for j in names:
+            lines += ['    @classmethod', '    def m%d(cls):' % j, '        return cls']
+    queries = []
+
+    def resolves(c, n):
+        while c is not None:
+            if n in hier[c][1]:
+                return True
+            c = hier[c][0]
+        return False
+    k = 0
+    for c in range(len(hier)):
+        for n in range(LOOKUP_NAMES):
+            if resolves(c, n):
+                k += 1
+                lines += ['t%d = K%d.m%d()' % (k, c, n), 't%d' % k]
+                queries.append((c, n, len(lines)))
+    return '\n'.join(lines) + '\n', queries
+
+
+def lookup_items(ctx):
+    """ALL hierarchies of up to 3 classes over 2 names (thorough) / a sample (quick), random larger"""
+    import itertools
+    rng = ctx.subrng('lookup')
+    small = []
+    subsets = [[], [0], [1], [0, 1]]
+    for n in (2, 3):
+        for bases in itertools.product(*[[None] + list(range(i)) for i in range(n)]):
+            for defs in itertools.product(subsets, repeat=n):
+                small.append([[bases[i], list(defs[i])] for i in range(n)])
+    items = small if not ctx.quick else rng.sample(small, 25)
+    for _ in range(ctx.size(35, 600)):
+        n = rng.randint(3, 6)
+        hier = []
+        for i in range(n):
+            base = None if i == 0 else (i - 1 if rng.random() < 0.6 else rng.choice([None] + list(range(i))))
+            hier.append([base, sorted(rng.sample(range(LOOKUP_NAMES), rng.choice([0, 0, 1, 1, 2, 3])))])
+        items.append(hier)
+    return [{'hier': h} for h in items]
+
+
+def analyse_lookup(item):
+    src, queries = lookup_source(item['hier'])
+    res = analyse_source(src, {'exact': {str(ln): True for _, _, ln in queries}})
+    res['queries'] = queries
+    return res
+
+
+def judge_lookup(ctx, items, outs, answers):
+    """CPython = pyBoundCls, jedi = jediBoundCls (exact, every query); the property itself on every
+    probe through judge()"""
+    for it, res, ans in zip(items, outs, answers):
+        if res['err']:
+            raise common.InfraError('lookup program does not run: %s\n%s' % (res['err'], res['src']))
+        by_line = {r['line']: r for r in res['probes']}
+        model = None
+        if ans is not None:
+            if 'error' in ans:
+                raise common.InfraError('driver: %r' % ans)
+            model = {(q['c'], q['n']): q for q in ans['queries']}
+        for c, n, ln in res['queries']:
+            rec = by_line.get(ln)
+            if rec is None:
+                raise common.InfraError('lookup probe not reached: line %d\n%s' % (ln, res['src']))
+            key = (res['src'], ln)
+            if rec['raised'] or model is None:
+                continue
+            m = model[(c, n)]
+            def idx(d):
+                return int(d[1][1:]) if d[0] == 'class' and d[2] is not None and d[1][1:].isdigit() else -1
+            rt = [idx(r) for r in rec['runtime']]
+            jd = sorted(idx(d) for d in rec['jedi'])
+            inherited = n not in it['hier'][c][1]
+            ctx.count('lookup', key, nontrivial=inherited, bucket='inherited' if inherited else 'own')
+            if jd != ([] if m['jedi'] is None else [m['jedi']]):
+                ctx.tie_broken('correspondence:lookup', common.short(
+                    {'source': res['src'], 'line': ln, 'jedi': rec['jedi'], 'model': m['jedi']}, 1200))
+            if rt != ([] if m['py'] is None else [m['py']]):
+                ctx.tie_broken('correspondence:lookup-py', common.short(
+                    {'source': res['src'], 'line': ln, 'cpython': rec['runtime'], 'model': m['py']}, 1200))
+        res['finding_shape'] = None
+        # the failing-input search is the direct oracle on the same program
+        judge(ctx, res, 'generated:lookup', count=False)
 
 
 # ------------------------------------------------------------------- shape of a failing probe
@@ -202,7 +333,7 @@ def shape_of(src, line, kind):
 
 # ------------------------------------------------------------------------ judging (main process)
 
-def judge(ctx, res, origin):
+def judge(ctx, res, origin, count=True):
     src = res['src']
     failed = False
     for rec in res['probes']:
@@ -216,9 +347,10 @@ def judge(ctx, res, origin):
             ctx.count('flow', key, nontrivial=False, bucket='gave-up:' + rec['gave_up'][:40])
             continue
         multi = len(rec['runtime']) > 1
-        ctx.count('flow', key, nontrivial=True,
-                  bucket=('exact' if rec['exact'] else ('multi' if multi else 'single')),
-                  sample={'source': src, 'line': rec['line'], 'runtime': rec['runtime'], 'jedi': rec['jedi']})
+        if count:
+            ctx.count('flow', key, nontrivial=True,
+                      bucket=('exact' if rec['exact'] else ('multi' if multi else 'single')),
+                      sample={'source': src, 'line': rec['line'], 'runtime': rec['runtime'], 'jedi': rec['jedi']})
         if v is None:
             continue
         what, expected, kind = v
@@ -228,6 +360,10 @@ def judge(ctx, res, origin):
             shape = 'flow:callable-applied-to-its-own-result'
         elif res.get('finding_shape'):
             shape = res['finding_shape']      # corpus reproducer of a known finding
+        elif kind == 'not-exact' and rec.get('operand_limit') and \
+                all(r in rec['jedi'] for r in rec['runtime'] if r[0] in ('instance', 'class')):
+            # a binary operation with more than six operand pairs on the way: union of the operands
+            shape = 'flow:operator-beyond-six-operand-pairs'
         else:
             shape = 'flow:' + shape_of(src, rec['line'], kind)
         case = {'source': src, 'line': rec['line'], 'column': rec['column'], 'shape': shape, 'origin': origin}
@@ -255,7 +391,19 @@ def start(ctx):
     """launches the stream in the background (worker processes); returns a handle for finish()"""
     from concurrent.futures import ThreadPoolExecutor
     n = ctx.size(280, 6000)
-    seeds = ['%s-flow-%d' % (ctx.seed, i) for i in range(n)]
+    nd = ctx.size(70, 2500)
+    # interleaved so that every worker gets its share of both generators
+    seeds = []
+    step = max(1, n // nd)
+    k = 0
+    for i in range(n):
+        seeds.append('%s-flow-%d' % (ctx.seed, i))
+        if i % step == 0 and k < nd:
+            seeds.append('%s-desc-%d' % (ctx.seed, k))
+            k += 1
+    while k < nd:
+        seeds.append('%s-desc-%d' % (ctx.seed, k))
+        k += 1
     pool = ThreadPoolExecutor(2)
     items = corpus_items()
     return {'pool': pool,
@@ -266,14 +414,14 @@ def start(ctx):
 
 def finish(ctx, h):
     feats = {}
-    nprog = 0
+    nprog = ndesc = 0
     for item, res in zip(h['items'], h['corpus'].result()):
         judge(ctx, res, 'corpus:' + str(item['name']))
     groups = h['gen'].result()
     for group in groups:
         for res in group:
             if res.get('shrunk_from'):
-                judge(ctx, res, 'generated')
+                judge(ctx, res, res.get('origin', 'generated'))
     for group in groups:
         for res in group:
             if res.get('shrunk_from'):
@@ -281,11 +429,13 @@ def finish(ctx, h):
             nprog += 1
             for f in res.get('features', []):
                 feats[f] = feats.get(f, 0) + 1
-            judge(ctx, res, 'generated')
+            ndesc += res.get('origin') == 'generated:descbind'
+            judge(ctx, res, res.get('origin', 'generated'))
     h['pool'].shutdown()
     ctx.hist.setdefault('flow-features', {}).update(feats)
-    ctx.notes.append('flow: %d generated programs (+%d corpus), executed and inferred at every reached probe'
-                     % (nprog, len(h['items'])))
+    ctx.notes.append('flow: %d generated programs (%d of them class families of gen/descbind.py: descriptor '
+                     'binding through inheritance) (+%d corpus), executed and inferred at every reached probe'
+                     % (nprog, ndesc, len(h['items'])))
     ctx.obligations.setdefault('assumptions', [])
     ctx.obligations['assumptions'] = list(ctx.obligations['assumptions']) + [
         'stream flow is oracle-only (no Lean model of loops / generators): CPython is the ground truth, the '
